@@ -71,7 +71,11 @@ class STag:
     @property
     def nnz(self): return self.count_nonzero()
     def _w(self, r): return STag(r, self.format) if isinstance(r, _np.ndarray) and r.ndim == 2 else r
-    def __matmul__(self, o): return self._w(self.a @ _obj(o)) if isinstance(o, STag) else self.a @ _obj(o)
+    def __matmul__(self, o):
+        if not isinstance(o, (STag, _np.ndarray, list, tuple, AVec)) and hasattr(o, '__rmatmul__') and not _sparse.issparse(o):
+            return NotImplemented            # e.g. a cuqi Operator: let it unwrap its matrix
+        if _sparse.issparse(o): o = STag(_to_obj_matrix(o))
+        return self._w(self.a @ _obj(o)) if isinstance(o, STag) else self.a @ _obj(o)
     def __rmatmul__(self, o): return _obj(o) @ self.a
     def dot(self, o): return self.__matmul__(o)
     def __mul__(self, o):
@@ -86,7 +90,11 @@ class STag:
     def __sub__(self, o): return STag(self.a - _obj(o), self.format)
     def __neg__(self): return STag(-self.a, self.format)
     def power(self, p): return STag(self.a ** p, self.format)
-    def sqrt(self): return STag(_np.sqrt(self.a), self.format)
+    def sqrt(self):
+        out = _np.empty(self.a.shape, dtype=object)
+        for i in _np.ndindex(self.a.shape):
+            e = self.a[i]; out[i] = e.sqrt() if isinstance(e, SReal) else math.sqrt(e)
+        return STag(out, self.format)
     def __getitem__(self, k): return self.a[k]
     def multiply(self, o): return STag(self.a * _obj(o), self.format)
     def sum(self, *a, **k): return self.a.sum(*a, **k)
